@@ -447,6 +447,31 @@ let view_line line =
       end
   | _ -> "BAD"
 
+(* grammar: <link> <fee> <version> <system> <fmt> <cru> <dw> ; <orbit>,<bc>,<trigger>,<detfield>:<len.cnt.par>,..:<len.cnt.par> ; ...
+   -> wf=<0|1> <hex of every rendered RDH> : the RDH level of Spec/Grammar.v *)
+let grammar_line line =
+  match List.map String.trim (String.split_on_char ';' line) with
+  | head :: hbfs ->
+      (match split_ws head with
+       | [ link; fee; ver; sys; fmt; cru; dw ] ->
+           let ni x = n_of_int (int_of_string x) in
+           let page s = match String.split_on_char '.' s with
+             | [ len; cnt; par ] -> { pg_counter = ni cnt; pg_par = ni par; pg_payload = List.init (int_of_string len) (fun _ -> N0) }
+             | _ -> failwith "page" in
+           let hbf s = match String.split_on_char ':' s with
+             | [ f; pages; stop ] ->
+                 (match String.split_on_char ',' f with
+                  | [ o; b; t; d ] -> { h_orbit = ni o; h_bc = ni b; h_trigger = ni t; h_detfield = ni d;
+                                        h_pages = (if pages = "" then [] else List.map page (String.split_on_char ',' pages)); h_stop = page stop }
+                  | _ -> failwith "hbf fields")
+             | _ -> failwith "hbf" in
+           let ld = { l_link = ni link; l_fee = ni fee; l_version = ni ver; l_system = ni sys; l_format = ni fmt; l_cru = ni cru; l_dw = ni dw;
+                      l_hbfs = List.map hbf (List.filter (fun x -> x <> "") hbfs) } in
+           Printf.sprintf "wf=%d %s" (if wf_link_rdh ld then 1 else 0)
+             (String.concat "," (List.map (fun (r, _) -> hex_of_bytes (encode_rdh r)) (render_link ld)))
+       | _ -> "BAD")
+  | _ -> "BAD"
+
 (* cli: one whole run in a check mode.
    <all|sanity> <none|its|stave> <filter> <mute 0|1> <cap> <w codes -|a,b> <E -|n> <cdps -|n> <pht -|n> <period -|n> <file|pipe> <hex> *)
 let cli_line line =
@@ -492,6 +517,7 @@ let () =
     | "collector" -> collector_line
     | "stats" -> stats_line
     | "cli" -> cli_line
+    | "grammar" -> grammar_line
     | "view" -> view_line
     | "statscmp" -> statscmp_line
     | "statsfile" -> statsfile_line
